@@ -1,6 +1,7 @@
 import MdkVerif.Model.Store
 import MdkVerif.Proofs.Store
 import MdkVerif.Proofs.Sort
+import MdkVerif.Proofs.Refine
 /-
   C10 — Memory and SQLite backends are observably the same store, and both agree with the plain
   reading of the storage contract.  The statements below are about the store model on EITHER backend
@@ -210,5 +211,48 @@ theorem backends_equal_full_false : ¬ backends_equal_full := by
 theorem witness_missing_group_differs :
     (step (run (Store.empty .mem) (wMissing.take 2)) (.snapRollback 5 1)).2 ≠
     (step (run (Store.empty .sql) (wMissing.take 2)) (.snapRollback 5 1)).2 := by decide
+
+/-! ### 5. refinement: outside the two known differences and inside both backends' limits the two
+    backends are the same store, for EVERY operation and every history
+
+  `Agree m q` (Proofs/Refine.lean): all tables equal (relay sets as lookups), memory's by-nostr-id
+  index consistent with the record list, group ids and nostr ids pairwise distinct, every stored
+  snapshot holds its group's record.  `WL s op` (decidable): the operation is within both backends'
+  documented limits (group name ≤ 255, description ≤ 2000, ≤ 100 admins, ≤ 100 relays of ≤ 512 bytes,
+  content ≤ 1 MiB, the welcome limits of both, fewer than 2^63 stored messages / welcomes) and outside
+  the two open findings: `snap_create` only for a group that has a record
+  (`snapshot-of-missing-group`), `snap_rollback` only when the snapshot's nostr id is not held by
+  another group (`restore-nostr-id-collision`).  For `dump` agreement is of the rendered string. -/
+
+/-- one step: same observation, and the relation is kept — for each of the 37 operations -/
+theorem step_agree (m q : Store) (op : Op) (h : Agree m q) (hw : WL m op = true) :
+    (step m op).2 = (step q op).2 ∧ Agree (step m op).1 (step q op).1 :=
+  step_agree' m q h op hw
+
+/-- any history all of whose operations are within `WL` (checked along the memory run, `WLrun`)
+    produces the same observations on a fresh memory store and a fresh SQLite store -/
+theorem backends_equal_partial (ops : List Op) (hw : WLrun (Store.empty .mem) ops = true) :
+    (ops.foldl (fun (acc : Store × List String) o => let r := step acc.1 o; (r.1, acc.2 ++ [r.2])) (Store.empty .mem, [])).2
+      = (ops.foldl (fun (acc : Store × List String) o => let r := step acc.1 o; (r.1, acc.2 ++ [r.2])) (Store.empty .sql, [])).2 :=
+  (observe_agree ops _ _ [] agree_empty hw).1
+
+/-- … and the two stores are still related afterwards (so the statement extends to any continuation) -/
+theorem backends_related_after (ops : List Op) (hw : WLrun (Store.empty .mem) ops = true) :
+    Agree (observe (Store.empty .mem, []) ops).1 (observe (Store.empty .sql, []) ops).1 :=
+  (observe_agree ops _ _ [] agree_empty hw).2
+
+/-- non-vacuity: a history with two groups, relays, secrets, OpenMLS rows, a message, a snapshot, further
+    writes, a rollback and a dump is inside `WL` -/
+def exWL : List Op :=
+  [.saveGroup (grp 1 11), .saveGroup (grp 2 12), .replaceRelays 1 [3, 1, 3], .saveSecret 1 0 7, .mlsWrite 1 0 9,
+   .saveMessage { id := 1, gid := 1, pk := 0, kind := 9, created := 100, processed := 100, content := 1, contentLen := 8,
+                  tag := 0, wrapper := 1, epoch := some 1, state := 1 },
+   .snapCreate 1 1 1000, .saveSecret 1 1 8, .replaceRelays 1 [], .saveGroup (grp 1 15), .snapRollback 1 1,
+   .findGroupNostr 11, .messages 1 none none none, .dump]
+
+example : WLrun (Store.empty .mem) exWL = true := by decide
+
+/-- the two witnesses of §4 are outside `WL` (so they do not contradict the theorem) -/
+example : WLrun (Store.empty .mem) wMissing = false ∧ WLrun (Store.empty .mem) wCollision = false := by decide
 
 end MdkVerif.Props.C10
